@@ -352,6 +352,35 @@ pub fn generate(thorough: bool, seed: u64, out: &mut dyn Write) {
         let op = ["plwrite", "plparse", "plrt"][i % 3];
         writeln!(out, "{} {}", op, patchlist_fields(&mut rng, game, np)).unwrap();
     }
+
+    // ---- mutated encodings (`mut <seed> <k> <case>`, Base/Mutate.lean): 1..3 damaged bytes in an
+    // encoded FIIN table / patch-list text; the model of the code and the code must still agree.
+    // Own stream.
+    let mut mrng = Rng::new(seed, "C10-mut");
+    let n = if thorough { 40_000 } else { 400 };
+    for i in 0..n {
+        let k = 1 + mrng.below(3);
+        let mseed = mrng.next() >> 1;
+        let line = if i % 2 == 0 {
+            let ne = match mrng.below(8) {
+                0 => 1,
+                1 => 2,
+                2 => mrng.range(8, 20),
+                _ => mrng.range(1, 5),
+            } as usize;
+            format!("parse {}", entries_field(&mut mrng, ne))
+        } else {
+            let game = mrng.chance(1, 2);
+            let np = match mrng.below(8) {
+                0 => 0,
+                1 => 1,
+                2 => mrng.range(5, 10),
+                _ => mrng.range(1, 4),
+            } as usize;
+            format!("plparse {}", patchlist_fields(&mut mrng, game, np))
+        };
+        writeln!(out, "mut {} {} {}", mseed, k, line).unwrap();
+    }
 }
 
 // ------------------------------------------------------------------------------------------
@@ -577,7 +606,8 @@ pub fn run(case: &str, input: &str) -> String {
         }
         ("plparse", 3) => {
             let (Some(k), Some(b)) = (kind(f[1]), unhex(f[2])) else { return bad() };
-            let Ok(text) = String::from_utf8(b) else { return bad() };
+            // a damaged text (family `mut`) whose bytes are no `&str` cannot be handed to from_string
+            let Ok(text) = String::from_utf8(b) else { return "not-utf8".into() };
             guarded(move || show_patchlist(&PatchList::from_string(k, &text)))
         }
         _ => bad(),
